@@ -49,7 +49,11 @@ def mk_direct(case, dtype=float):
     )
 
 
-ROUTES = ("direct", "direct", "direct", "slice", "copy", "dict", "iloc", "slice")
+ROUTES = ("direct", "direct", "direct", "slice", "copy", "dict", "iloc", "slice", "ctor", "aliases")
+
+# the documented spellings of the two senses (skcriteria.core.objectives); "min" / "max" are the builtins
+MAX_SPELLINGS = (1, max, np.max, np.nanmax, np.amax, "max", "maximize", "+", ">")
+MIN_SPELLINGS = (-1, min, np.min, np.nanmin, np.amin, "min", "minimize", "-", "<")
 
 
 def mk_route(case):
@@ -58,8 +62,11 @@ def mk_route(case):
         return "direct"
     if not case.get("alternatives") or not case.get("criteria") or case.get("weights") is None:
         return "direct"
+    key = json.dumps([case["matrix"], [str(o) for o in case["objectives"]], list(case["weights"]),
+                      [str(x) for x in case["alternatives"]], [str(x) for x in case["criteria"]]], sort_keys=True, default=str)
+    r = ROUTES[zlib.crc32(key.encode()) % len(ROUTES)]
     if not all(isinstance(x, str) for x in list(case["alternatives"]) + list(case["criteria"])):
-        return "direct"
+        return r if r in ("ctor", "aliases", "copy", "dict") else "direct"   # any label kind
     key = json.dumps([case["matrix"], list(case["objectives"]), list(case["weights"]),
                       list(case["alternatives"]), list(case["criteria"])], sort_keys=True, default=str)
     r = ROUTES[zlib.crc32(key.encode()) % len(ROUTES)]
@@ -82,6 +89,20 @@ def mk(case, dtype=float):
     if mtx.ndim != 2 or n == 0 or m == 0:
         return mk_direct(case, dtype)
     objs, wts = list(case["objectives"]), list(case["weights"])
+    if route == "aliases" and all(o in (1, -1) for o in objs):
+        # every criterion's sense written in another of its documented spellings
+        h0 = zlib.crc32(repr((crits, objs)).encode())
+        sp = [(MAX_SPELLINGS if o == 1 else MIN_SPELLINGS)[(h0 // (j + 1) + 3 * j) % len(MAX_SPELLINGS)] for j, o in enumerate(objs)]
+        return mk_direct(dict(case, objectives=sp), dtype)
+    if route == "ctor" and all(o in (1, -1) for o in objs):
+        # the constructor instead of mkdm: a labelled DataFrame, objectives and weights as plain pandas Series
+        import pandas as pd
+        df = pd.DataFrame(mtx, index=alts, columns=crits)
+        if case.get("dtypes"):
+            df = df.astype({c: t for c, t in zip(crits, case["dtypes"])})
+        return DecisionMatrix(df, pd.Series([int(o) for o in objs]), pd.Series([float(x) for x in wts]))
+    if route in ("aliases", "ctor"):
+        return mk_direct(case, dtype)
     if route == "copy":
         return mk_direct(case).copy()
     if route == "dict":
